@@ -292,6 +292,15 @@ func (w *worker) run(i int, name string) {
 	}
 	foreign := &metav1.OwnerReference{APIVersion: "v1", Kind: "ConfigMap", Name: "someone", UID: "foreign-uid", Controller: ptr.To(true)}
 	pre := map[string]string{"old": "pre-existing", "user": "pre-user"}
+	if t.PreXR == "foreign" && i%3 == 0 {
+		// the foreign owner's secret appears behind the controllers' Secret cache: their reads say
+		// NotFound, their Create answers AlreadyExists
+		frozen := world.RV()
+		for _, a := range []string{"xr", "claim"} {
+			world.SetActorLag(a, func(gk schema.GroupKind) (int64, bool) { return -frozen, gk.Group == "" && gk.Kind == "Secret" })
+		}
+		c.Count("xr_secret_foreign_behind_cache", 1)
+	}
 	switch t.PreXR {
 	case "typed":
 		_ = user.Create(ctx, mkSecret(xrSecretNS, "xr-secret", connType, pre, nil))
